@@ -127,7 +127,7 @@ def generate(seed: int, tier: str) -> dict:
         "inputs": inputs,
         "env": env,
         "mode": mode,
-        "budget": 120 if tier == "quick" else 400,
+        "budget": 80 if tier == "quick" else 400,
         "ops": ops,
     }
 
@@ -329,7 +329,7 @@ def execute(scn, world: World, plans: dict, res: Result, *, auto_heal: bool, rec
                 # missing input) - on the simulation and on its twin alike.  Only inputs
                 # whose every reader failed to complete qualify: a completed value that
                 # was computed from the old input legitimately stays what it is.
-                cands = _guard_inputs(world, frames_now, after)
+                cands = _guard_inputs(world, frames_now, before, after)
                 if cands and (fired[0][0] if isinstance(fired[0][0], int) else len(kinds)) % 2 == 0:
                     var, per = cands[0]
                     heal["input_first"] = [var, per, _new_value(world.var_specs[var])]
@@ -353,9 +353,11 @@ def execute(scn, world: World, plans: dict, res: Result, *, auto_heal: bool, rec
     return H
 
 
-def _guard_inputs(world, frames, after):
+def _guard_inputs(world, frames, before, after):
     """(variable, period) of inputs-by-default the failed request read, all of whose
-    readers did not complete."""
+    readers did not complete - in this request, and in any earlier one: the default
+    must have been cached by this very request (not readable before it), otherwise a
+    value completed earlier may have been computed from it."""
     readers: dict = {}
     for f in frames:
         for rec in f.reads:
@@ -366,7 +368,7 @@ def _guard_inputs(world, frames, after):
             if spec.get("set_input") or spec.get("end") or spec["type"] == "enum":
                 continue
             key = (var, str(period))
-            if not has_formula(world, var, key[1]) and key in after:
+            if not has_formula(world, var, key[1]) and key in after and key not in before:
                 readers.setdefault(key, []).append(f.done)
     return sorted(k for k, done in readers.items() if not any(done))
 
